@@ -18,7 +18,9 @@ BUDGET_S = {"quick": 28, "thorough": 400}
 
 
 NONSTR_SEQS = [["1", "1.0", "True"], ["1.0", "1", "True"], ["True", "1.0", "1"], ["2024", "2024.0"], ["2024.0", "2024"],
-               ["(1, 2)", "(1.0, 2.0)"]]      # falsy names (0, False) are treated as "unnamed" by the library: not generated
+               ["(1, 2)", "(1.0, 2.0)"],
+               # a non-string name next to the text it prints as: different names (1 != '1')
+               ["1", "'1'"], ["2.5", "'2.5'"], ["True", "'True'"], ["2024", "'2024'", "2024.0"], ["(1, 2)", "'(1, 2)'"]]      # falsy names (0, False) are treated as "unnamed" by the library: not generated
 
 
 def generate(rng, tier):
@@ -48,6 +50,19 @@ def _nonstr(spec):
             want = (_sanitize_user_name(str(nm)) or "col") + "_sum"
             if got != [want]:
                 fails.append(f"column named {nm!r}: aggregate output {got}, expected ['{want}'] (sanitised str({nm!r}) + '_sum')")
+        # table-with-table arithmetic keeps a left name only when the right name is absent or EQUAL (Python's ==): names that merely
+        # print alike are different names
+        for a in names:
+            for b in names + [None]:
+                try:
+                    L, R = Table({a: [1, 2]}), (Table({b: [3, 4]}) if b is not None else Table([__import__("serif").Vector([3, 4])]))
+                    got = (L + R).column_names()
+                except Exception as e:
+                    fails.append(f"Table({{{a!r}: …}}) + Table({{{b!r}: …}}) raised {type(e).__name__}")
+                    continue
+                want = [a] if (b is None or a == b) else [None]
+                if got != want or (got[0] is not None and type(got[0]) is not type(a)):
+                    fails.append(f"Table({{{a!r}: …}}) + Table({{{b!r}: …}}) is named {got}, the rule gives {want}")
     w = {"fam": "nonstr-names", "case": {"names": spec["names"]}, "impl": {"checked": len(names)}}
     if fails:
         w["py_fail"] = "; ".join(fails)
